@@ -100,6 +100,23 @@ def run_function(fi: FuncInfo, ci: ClassInfo | None = None, overrides: dict | No
     run = Run(fi, ci, ex, [], self_obj, params)
     if pre is not None:
         pre(ex, self_obj, params)
+    # class invariant facts of the receiver are assumed for the pre-state
+    if self_obj is not None and not self_fresh:
+        from contracts.invariants import FACTS
+        cls_ = ci or fi.cls
+        for k in cls_.mro:
+            for src in FACTS.get(k.short, ()):
+                try:
+                    node = ast.parse(src, mode="eval").body
+                    from .state import Frame
+                    ex.frames.append(Frame(None, k, {"self": self_obj}, self_obj, k.module))
+                    try:
+                        v = ex.eval(node)
+                    finally:
+                        ex.frames.pop()
+                    ex.st.pc.append(ex.truth(v))
+                except Exception as e:      # a fact that cannot be evaluated is reported, not ignored
+                    ex.note(f"fact-not-evaluated:{k.short}:{e!r}")
     if fi.name != "get_sql":
         ex.contract_self_methods = {"get_sql"}
     try:
